@@ -6,6 +6,7 @@ From Coq Require Import List Arith NArith ZArith Bool Permutation.
 From PV Require Import Base.Bytes Base.Utf8 Base.Outcome Base.KV Compkey.Model Aol.Model Aol.Spec Aol.StoredSpec Aol.Genesis Valid.Aol.
 From PV Require Import Did.Model Did.Props Did.Genesis Pnft.Model Pnft.Spec Pnft.Genesis.
 From PV Require Import Chain.Model Chain.Run Chain.GenesisProps Chain.GenesisJson.
+From PV Require Chain.DidExportValid.
 Import ListNotations.
 
 (** every state reachable from the empty chain by any history of blocks whose text is valid UTF-8: the export
@@ -105,3 +106,17 @@ Theorem C08_invalid_utf8_genesis_refused_refuted :
   export_import_json bech unbech c = Err (b "aol") 0.
 Proof. exact export_import_json_genesis_refused. Qed.
 Print Assumptions C08_invalid_utf8_genesis_refused_refuted.
+
+(** "passes the custom modules' genesis validation", x/did: whatever history the chain has gone through — from the empty
+    registry or from a genesis that itself passed GenesisState.Validate (as repaired, F14: tombstone or document about its
+    own key) — the DID genesis it exports passes that validation again *)
+Theorem C08_did_export_passes_validation : forall o bs c g,
+  validate_did_genesis g = true -> c_did c = init_did g [] ->
+  validate_did_genesis (export_did (c_did (run o c bs))) = true.
+Proof. exact Chain.DidExportValid.export_of_any_history_passes_validation. Qed.
+Print Assumptions C08_did_export_passes_validation.
+
+Theorem C08_did_export_from_empty_passes_validation : forall o bs c,
+  c_did c = [] -> validate_did_genesis (export_did (c_did (run o c bs))) = true.
+Proof. exact Chain.DidExportValid.export_from_empty_passes_validation. Qed.
+Print Assumptions C08_did_export_from_empty_passes_validation.
